@@ -1422,3 +1422,144 @@ class CollectionFamily(Family):
     @classmethod
     def bounded_source(cls, prog, fname):
         return 'calculator', COLLECTION_TEST, 'all sequences of <= 4 operations (Add/Locate/RemoveByName of 4 names, Remove(0..2), Clear, ClearValues) on both collections against an ordered-list model'
+
+
+PARSER_TEST = r'''package calculator_test
+
+import (
+	"fmt"
+	"strings"
+	"testing"
+
+	"github.com/pip-services3-gox/pip-services3-expressions-gox/calculator/parsers"
+)
+
+// C02 / C01 (bounded): every token sequence up to the stated length over the alphabets below, written with
+// single blanks, against a reference recursive-descent recogniser written from the statement's precedence table:
+// the parser must accept exactly the sentences of the grammar, compile them to the post-order of the syntax tree
+// (operator types, constants, variable and function names, argument counts), and reject everything else with an
+// error that carries a code - never a panic.
+type rp struct { toks []string; pos int; out []string; ok bool }
+
+func (p *rp) peek() string { if p.pos < len(p.toks) { return p.toks[p.pos] }; return "" }
+func (p *rp) at(ts ...string) bool { for i, t := range ts { if p.pos+i >= len(p.toks) || p.toks[p.pos+i] != t { return false } }; return true }
+func (p *rp) p0() bool {
+	if !p.p1() { return false }
+	for { t := p.peek(); if t == "AND" || t == "OR" || t == "XOR" { p.pos++; if !p.p1() { return false }; p.out = append(p.out, t) } else { return true } }
+}
+func (p *rp) p1() bool {
+	if p.peek() == "" { return false }
+	if p.peek() == "NOT" { p.pos++; if !p.p2() { return false }; p.out = append(p.out, "NOT"); return true }
+	return p.p2()
+}
+func (p *rp) p2() bool {
+	if !p.p3() { return false }
+	for { t := p.peek(); if t == "=" || t == "<>" || t == "<" || t == ">=" { p.pos++; if !p.p3() { return false }; p.out = append(p.out, t) } else { return true } }
+}
+func (p *rp) p3() bool {
+	if !p.p4() { return false }
+	for {
+		t := p.peek()
+		switch {
+		case t == "+" || t == "-" || t == "LIKE": p.pos++; if !p.p4() { return false }; p.out = append(p.out, t)
+		case p.at("NOT", "LIKE"): p.pos += 2; if !p.p4() { return false }; p.out = append(p.out, "NOTLIKE")
+		case p.at("IS", "NULL"): p.pos += 2; p.out = append(p.out, "ISNULL")
+		case p.at("IS", "NOT", "NULL"): p.pos += 3; p.out = append(p.out, "ISNOTNULL")
+		case p.at("NOT", "IN"): p.pos += 2; if !p.p4() { return false }; p.out = append(p.out, "NOTIN")
+		default: return true
+		}
+	}
+}
+func (p *rp) p4() bool {
+	if !p.p5() { return false }
+	for { t := p.peek(); if t == "*" || t == "/" { p.pos++; if !p.p5() { return false }; p.out = append(p.out, t) } else { return true } }
+}
+func (p *rp) p5() bool {
+	if !p.p6() { return false }
+	for { t := p.peek(); if t == "^" || t == "IN" || t == "<<" { p.pos++; if !p.p6() { return false }; p.out = append(p.out, t) } else { return true } }
+}
+func (p *rp) p6() bool {
+	unary := false
+	if p.peek() == "+" { p.pos++ } else if p.peek() == "-" { unary = true; p.pos++ }
+	t := p.peek()
+	switch {
+	case t == "1" || t == "'s'": p.pos++; p.out = append(p.out, "C:"+t)
+	case (t == "a" || t == "f") && !(p.pos+1 < len(p.toks) && p.toks[p.pos+1] == "("): p.pos++; p.out = append(p.out, "V:"+t)
+	case t == "(": p.pos++; if !p.p0() { return false }; if p.peek() != ")" { return false }; p.pos++
+	case t == "a" || t == "f":
+		p.pos += 2
+		n := 0
+		if p.peek() != ")" {
+			for { if !p.p0() { return false }; n++; if p.peek() == "," { p.pos++; continue }; break }
+		}
+		if p.peek() != ")" { return false }
+		p.pos++
+		p.out = append(p.out, fmt.Sprintf("C:%%d", n), "F:"+t)
+	default: return false
+	}
+	if unary { p.out = append(p.out, "UNARY") }
+	if p.peek() == "[" { p.pos++; if !p.p0() { return false }; if p.peek() != "]" { return false }; p.pos++; p.out = append(p.out, "ELEMENT") }
+	return true
+}
+
+var typeNames = map[int]string{parsers.Plus: "+", parsers.Minus: "-", parsers.Star: "*", parsers.Slash: "/", parsers.Power: "^", parsers.Equal: "=", parsers.NotEqual: "<>",
+	parsers.Less: "<", parsers.EqualMore: ">=", parsers.ShiftLeft: "<<", parsers.And: "AND", parsers.Or: "OR", parsers.Xor: "XOR", parsers.In: "IN", parsers.NotIn: "NOTIN",
+	parsers.Not: "NOT", parsers.Like: "LIKE", parsers.NotLike: "NOTLIKE", parsers.IsNull: "ISNULL", parsers.IsNotNull: "ISNOTNULL", parsers.Unary: "UNARY", parsers.Element: "ELEMENT"}
+
+func TestVerifReplay(t *testing.T) {
+	var cases [][]string
+	var gen func(abc []string, cur []string, n int)
+	gen = func(abc []string, cur []string, n int) { if len(cur) > 0 { cases = append(cases, append([]string{}, cur...)) }; if n == 0 { return }; for _, c := range abc { gen(abc, append(cur, c), n-1) } }
+	gen([]string{"1", "a", "f", "+", "-", "*", "^", "(", ")", "[", "]", ",", "NOT", "IS", "NULL", "IN", "AND", "=", "LIKE", "'s'"}, nil, %(l1)d)
+	gen([]string{"1", "a", "-", "*", "(", ")", "[", "]", ",", "f"}, nil, %(l2)d)
+	gen([]string{"1", "f", "(", ")", ","}, nil, %(l3)d)
+	gen([]string{"a", "IS", "NOT", "NULL", "IN", "LIKE", "1"}, nil, %(l3)d)
+	%(extra)s
+	parser := parsers.NewExpressionParser()
+	bad := 0
+	for _, toks := range cases {
+		expr := strings.Join(toks, " ")
+		ref := &rp{toks: toks}
+		accept := ref.p0() && ref.pos == len(toks)
+		var err error
+		func() {
+			defer func() { if r := recover(); r != nil { t.Errorf("%%q: SetExpression panicked: %%v", expr, r); bad++ } }()
+			err = parser.SetExpression(expr)
+			if accept && err != nil { t.Errorf("%%q is a sentence of the grammar but was rejected: %%v", expr, err); bad++; return }
+			if !accept && err == nil {
+				var got []string
+				for _, rt := range parser.ResultTokens() { got = append(got, fmt.Sprintf("%%d", rt.Type())) }
+				t.Errorf("%%q is not a sentence of the grammar but was accepted (compiled to %%v)", expr, got); bad++; return
+			}
+			if err != nil { if !strings.Contains(fmt.Sprintf("%%#v", err), "Code:\"") || strings.Contains(fmt.Sprintf("%%#v", err), "Code:\"\"") { t.Errorf("%%q: error without code: %%v", expr, err); bad++ }; return }
+			var got []string
+			for _, rt := range parser.ResultTokens() {
+				switch rt.Type() {
+				case parsers.Constant: got = append(got, "C:"+strings.Trim(rt.Value().String(), "\""))
+				case parsers.Variable: got = append(got, "V:"+rt.Value().AsString())
+				case parsers.Function: got = append(got, "F:"+rt.Value().AsString())
+				default: got = append(got, typeNames[rt.Type()])
+				}
+			}
+			want := strings.ReplaceAll(strings.Join(ref.out, " "), "C:'s'", "C:s")
+			if strings.Join(got, " ") != want { t.Errorf("%%q compiled to [%%s], the post-order of its syntax tree is [%%s]", expr, strings.Join(got, " "), want); bad++ }
+		}()
+		if bad > 8 { t.Fatalf("stopping after %%d failures", bad) }
+	}
+}
+'''
+
+
+@family(r'/calculator/parsers\.')
+class ParserFamily(Family):
+    @classmethod
+    def source(cls, l1=3, l2=5, l3=6, extra=''):
+        return PARSER_TEST % {'l1': l1, 'l2': l2, 'l3': l3, 'extra': extra}
+
+    def test_source(self, vals):
+        return 'calculator', self.source()
+
+    @classmethod
+    def bounded_source(cls, prog, fname):
+        return 'calculator', cls.source(), ('all token sequences up to length 3 over a 20-token alphabet, up to length 5 over {1,a,-,*,(,),[,],",",f}, '
+                                            'up to length 6 over {1,f,(,),","} and over {a,IS,NOT,NULL,IN,LIKE,1}, against a reference recogniser')
